@@ -96,6 +96,13 @@ Theorem C14_dovetails_of_the_first_member_go_left : forall name n e i f fo t too
 Proof. exact relink_first. Qed.
 Print Assumptions C14_dovetails_of_the_first_member_go_left.
 
+(* the complement table read from the source is the IUPAC one (stated here independently of the source): A/T, C/G, R/Y,
+   K/M, B/V, D/H swap, S, W and N are their own complements, in both cases *)
+Theorem C14_complement_table_is_iupac : forall a b, In (a, b) iupac_pairs ->
+  match a with String c EmptyString => wcc c = Some b | _ => False end.
+Proof. exact complement_table_is_iupac. Qed.
+Print Assumptions C14_complement_table_is_iupac.
+
 Example C14_demo :
   linear_paths demo = Ok [[("A", "R"); ("B", "L"); ("C", "R")]]
   /\ merged_segment demo [("A", "R"); ("B", "L"); ("C", "R")] = Ok ("A_B_C", "AACCCCCGTA", Some 10%Z)
